@@ -29,7 +29,7 @@ def wdoc : Doc :=
                 ((5,0), .dict [])],
     maxId := 5, bookmarks := [1], bmTable := [(1, { children := [], page := (2,0) })] }
 
-theorem wdoc_pairs : densePairs (sortBy idLe wdoc.objects.keys) 2 [] =
+theorem wdoc_pairs : densePairs (sortBy idLeE wdoc.objects.keys) 2 [] =
     some ([((1,0),(2,0)), ((2,0),(3,0)), ((3,0),(4,0)), ((4,0),(5,0)), ((5,0),(6,0))], 7) := by decide
 
 /-- **F-C10-a (counter-witness).** Dense pass with start 2 on ids 1..5: the page object (2,0) moves to
@@ -48,15 +48,15 @@ theorem bookmark_chain_witness :
 the dense pass returns; afterwards the object numbers are exactly `start … start+n-1` (each new id of
 the assignment holds an object and nothing else does) and `max_id` is the last number. -/
 theorem renumber_dense (d1 : Doc) (start : Nat) (hnd : d1.objects.keys.Nodup)
-    (hlo : 1 ≤ start + d1.objects.length) (hhi : start + d1.objects.length ≤ U32_MAX) :
+    (hlo : 1 ≤ start + d1.objects.length) (hhi : start + d1.objects.length ≤ U32_MAXE) :
     ∃ d', densePass d1 start = .ok d' ∧ d'.maxId = start + d1.objects.length - 1 ∧
-      (assign (sortBy idLe d1.objects.keys) start).map (fun p => p.2.1) = List.range' start d1.objects.length ∧
-      ∀ k, (d'.objects.get k).isSome ↔ ∃ p ∈ assign (sortBy idLe d1.objects.keys) start, p.2 = k := by
-  have hperm := sortBy_perm idLe d1.objects.keys
-  have hlen : (sortBy idLe d1.objects.keys).length = d1.objects.length := by
+      (assign (sortBy idLeE d1.objects.keys) start).map (fun p => p.2.1) = List.range' start d1.objects.length ∧
+      ∀ k, (d'.objects.get k).isSome ↔ ∃ p ∈ assign (sortBy idLeE d1.objects.keys) start, p.2 = k := by
+  have hperm := sortBy_perm idLeE d1.objects.keys
+  have hlen : (sortBy idLeE d1.objects.keys).length = d1.objects.length := by
     rw [hperm.length_eq]; simp [Objects.keys]
-  have hn : (sortBy idLe d1.objects.keys).Nodup := hperm.nodup_iff.mpr hnd
-  have hk : ∀ k, k ∈ sortBy idLe d1.objects.keys ↔ (d1.objects.get k).isSome := by
+  have hn : (sortBy idLeE d1.objects.keys).Nodup := hperm.nodup_iff.mpr hnd
+  have hk : ∀ k, k ∈ sortBy idLeE d1.objects.keys ↔ (d1.objects.get k).isSome := by
     intro k; rw [hperm.mem_iff]; exact Objects.mem_keys_iff _ _
   unfold densePass
   rw [densePairs_eq _ _ _ (by rw [hlen]; exact hhi)]
@@ -72,13 +72,13 @@ theorem renumber_dense (d1 : Doc) (start : Nat) (hnd : d1.objects.keys.Nodup)
     split <;> simp
 
 /-- F-C10-c: outside `1 ≤ start + n` the code panics (`new_id - 1` on an empty document with start 0) -/
-theorem start0_empty_panics (tr : Dict) (bks : List Nat) (bm : BmTable) (m : Nat) :
+theorem start0_empty_panics (tr : Dict) (bks : List Nat) (bm : BkTable) (m : Nat) :
     densePass ⟨tr, [], m, bks, bm⟩ 0 = .panic "sub" := by
   simp [densePass, densePairs, sortBy, Objects.keys]
 
 /-- F-C10-c: `new_id += 1` overflows when `start + n > u32::MAX`, even though every assigned id fits -/
-theorem overflow_panics : densePass wdoc (U32_MAX - 4) = .panic "add" := by
-  have : densePairs (sortBy idLe wdoc.objects.keys) (U32_MAX - 4) [] = none := by decide
+theorem overflow_panics : densePass wdoc (U32_MAXE - 4) = .panic "add" := by
+  have : densePairs (sortBy idLeE wdoc.objects.keys) (U32_MAXE - 4) [] = none := by decide
   simp [densePass, this]
 
 /-- **F-C10-b (counter-witness).** Objects 1,2,3,4,8 and a dangling `5 0 R`: the reference resolves to
@@ -91,7 +91,7 @@ def wdoc2 : Doc :=
 
 theorem dangling_capture_witness :
     wdoc2.objects.get (5, 0) = none ∧
-    (∃ pairs n, densePairs (sortBy idLe wdoc2.objects.keys) 1 [] = some (pairs, n) ∧
+    (∃ pairs n, densePairs (sortBy idLeE wdoc2.objects.keys) 1 [] = some (pairs, n) ∧
         (renameFn pairs (.ref 5 0)).asRef = some (5, 0)) ∧
     ∃ d', densePass wdoc2 1 = .ok d' ∧ (d'.objects.get (5, 0)).isSome := by
   refine ⟨by decide, ⟨[((8,0),(5,0))], 6, by decide, by decide⟩, ?_⟩
@@ -153,7 +153,7 @@ example : seqRename [((1,0),(2,0)), ((2,0),(3,0))] (1,0) = (3,0) ∧ rhoFn [((1,
 theorem updatePages_single (t : Nat) (pg old new : ObjId) :
     renumberBookmarks [t] [(t, { children := [], page := pg })] old new =
       [(t, { children := [], page := if pg = old then new else pg })] := by
-  simp [renumberBookmarks, updatePages, BmTable.get, BmTable.setPage]
+  simp [renumberBookmarks, updatePages, BkTable.get, BkTable.setPage]
   split <;> simp_all
 
 /-! ### the renaming as a graph isomorphism (one pass) -/
@@ -266,7 +266,7 @@ distinct existing old ids, distinct new ids, and no new id equal to a key that s
 objects and traversing with the rename action, the trailer is the original with every reference renamed
 by `rho`, and the object of every old id `old` sits at `rho old` — renamed by `rho` when the traversal
 reached it, untouched otherwise.  No object is lost, none is duplicated. -/
-theorem rename_pass_iso_partial (bks : List Nat) (os : Objects) (bm : BmTable) (tr : Dict) (pairs : List (ObjId × ObjId))
+theorem rename_pass_iso_partial (bks : List Nat) (os : Objects) (bm : BkTable) (tr : Dict) (pairs : List (ObjId × ObjId))
     (h1 : (pairs.map (·.1)).Nodup) (h2 : ∀ p ∈ pairs, os.get p.1 ≠ none)
     (h3 : (pairs.map (·.2)).Nodup)
     (h4 : ∀ p ∈ pairs, ∀ k, (os.get k).isSome → k ∉ pairs.map (·.1) → p.2 ≠ k) :
